@@ -1,11 +1,12 @@
 #!/bin/bash
 # ./seedauto.sh <seed-id> <check-ids...>   reads the demo coordinates from /tmp/seed-<id>/OUT/meta.json and calls
 # seedrun.sh; when the scratch worktree is gone it re-runs the stored seed against the named checks only.
+V="$(cd "$(dirname "$0")" && pwd)"   # the /verif tree these scripts belong to (also a snapshot of it)
 ID="$1"; shift
 M=/tmp/seed-$ID/OUT/meta.json
 if [ ! -f "$M" ]; then
-  VERIF_SEED_ONLY_CHECKS=1 exec /verif/seedrun.sh "$ID" x x x x "$@"
+  VERIF_SEED_ONLY_CHECKS=1 exec "$V"/seedrun.sh "$ID" x x x x "$@"
 fi
 read MOD PKG DEMO RX < <(python3 -c "
 import json;m=json.load(open('$M'))['demo'];print(m['module'],m['pkg_dir'],m['file'],m['run'])")
-exec /verif/seedrun.sh "$ID" "$MOD" "$PKG" "$DEMO" "$RX" "$@"
+exec "$V"/seedrun.sh "$ID" "$MOD" "$PKG" "$DEMO" "$RX" "$@"
